@@ -95,9 +95,17 @@ def generate(family, rng, tier):
             if cmds[i]["at"] - cmds[i - 1]["at"] < (cmds[i - 1]["length"] + 4) * div + 2:
                 cmds[i]["length"] = cmds[i - 1]["length"]
                 cmds[i]["miso"] &= (1 << cmds[i]["length"]) - 1
+        with_csr = rng.random() < 0.35
+        if with_csr:
+            # software needs two bus writes per command (mosi, control): commands at least 3 cycles apart, the first one after
+            # the configuration writes
+            t0 = 8
+            for c in cmds:
+                c["at"] = max(c["at"], t0)
+                t0 = c["at"] + 3
         ncs = rng.choice([1, 1, 2, 3])
         sel = rng.choice([1, 1, (1 << ncs) - 1, 1 << rng.randrange(ncs), rng.getrandbits(ncs) | 1]) & ((1 << ncs) - 1)
-        return {"family": family, "params": {"data_width": dwidth, "mode": mode, "div": div, "loopback": div < 4 or rng.random() < 0.2, "ncs": ncs, "sel": sel or 1,
+        return {"family": family, "params": {"data_width": dwidth, "mode": mode, "div": div, "loopback": div < 4 or rng.random() < 0.2, "ncs": ncs, "sel": sel or 1, "with_csr": with_csr,
                                              "cs_mode": int(rng.random() < 0.2)}, "cmds": cmds}
     if family == "timer":
         ops, t = [], 4
@@ -315,10 +323,35 @@ def run_spi(scn):
     ncs, sel = p.get("ncs", 1), p.get("sel", 1)
     csmask = (1 << ncs) - 1
     pads = Record([("clk", 1), ("cs_n", ncs), ("mosi", 1), ("miso", 1)])
-    dut = SPIMaster(pads, dw, sys_clk_freq=100e6, spi_clk_freq=100e6 / div, with_csr=False, mode=p["mode"])
+    with_csr = bool(p.get("with_csr"))
+    dut = SPIMaster(pads, dw, sys_clk_freq=100e6, spi_clk_freq=100e6 / div, with_csr=with_csr, mode=p["mode"])
     cmds = scn["cmds"]
     end = max(c["at"] for c in cmds) + (dw + 6) * div + 40
-    bench = Bench(wrap_top(dut), max_cycles=end + 10, tail=2, fingerprint=False)
+    csrw = {}
+    if with_csr:
+        # software path: every control goes through the core's CSRs (control.start/length fields, mosi, cs.sel/mode fields,
+        # loopback, clk_divider) behind a real CSRBank; the bus writes are placed so that `start` becomes visible in the same
+        # cycle as in the direct variant
+        from migen import Module
+        from litex.soc.interconnect import csr_bus
+        dut.add_clk_divider()
+        top = Module()
+        top.submodules.dut = dut
+        cbus = csr_bus.Interface(data_width=32, address_width=14)
+        top.submodules.bank = bank = csr_bus.CSRBank(dut.get_csrs(), address=0, bus=cbus, ordering="big")
+        cadr = {}
+        for i_, c_ in enumerate(bank.simple_csrs):
+            cadr[c_.name] = i_
+        reg = {key: next(k for k in cadr if k.startswith(key)) for key in ("control", "mosi", "cs", "loopback", "clk_divider")}
+        csrw[0] = ("clk_divider", div)
+        csrw[1] = ("loopback", int(p["loopback"]))
+        csrw[2] = ("cs", sel | (p["cs_mode"] << 16))
+        for c in cmds:
+            csrw[c["at"] - 2] = ("mosi", c["mosi"])
+            csrw[c["at"] - 1] = ("control", 1 | (c["length"] << 8))
+    else:
+        top = dut
+    bench = Bench(wrap_top(top), max_cycles=end + 10, tail=2, fingerprint=False)
     rows = []
     state = {"accepted": []}
 
@@ -340,18 +373,27 @@ def run_spi(scn):
             # column 1 keeps the single-line meaning "cs_n": 0 when every SELECTED line is asserted; column 6 = lines asserted
             # although they are not selected
             rows.append((v[pads.clk], int((act & sel) != sel), v[pads.mosi], v[dut.done], v[dut.irq], v[dut.miso], act & ~sel))
-            if t == 0:
-                w(dut.clk_divider, div)
-                w(dut.loopback, int(p["loopback"]))
-                w(dut.cs, sel)
-                w(dut.cs_mode, p["cs_mode"])
-            w(dut.start, 0)
-            if t in s_.start_at:
-                c = s_.start_at[t]
-                w(dut.start, 1)
-                w(dut.length, c["length"])
-                w(dut.mosi, c["mosi"])
-                c["issued"] = t + 1
+            if with_csr:
+                w(cbus.we, 0)
+                if t in csrw:
+                    w(cbus.adr, cadr[reg[csrw[t][0]]])
+                    w(cbus.dat_w, csrw[t][1])
+                    w(cbus.we, 1)
+                if t in s_.start_at:
+                    s_.start_at[t]["issued"] = t + 1
+            else:
+                if t == 0:
+                    w(dut.clk_divider, div)
+                    w(dut.loopback, int(p["loopback"]))
+                    w(dut.cs, sel)
+                    w(dut.cs_mode, p["cs_mode"])
+                w(dut.start, 0)
+                if t in s_.start_at:
+                    c = s_.start_at[t]
+                    w(dut.start, 1)
+                    w(dut.length, c["length"])
+                    w(dut.mosi, c["mosi"])
+                    c["issued"] = t + 1
             # device: present the next MISO bit after each falling edge (and the first one when a transfer begins)
             clk = v[pads.clk]
             if s_.cur is not None:
@@ -446,14 +488,14 @@ def run_spi(scn):
             V("done_flag", "done", "transfer at cycle %d: done not high in the cycle after the end (cycle %d)" % (t0, t1 + 1), t1)
             break
     # a chip-select line that software did not select is never asserted (automatic and manual mode)
-    for k in range(3, n):
+    for k in range(8 if with_csr else 3, n):
         checks += 1
         if rows[k][6]:
             V("cs_unselected", "cs_n", "cycle %d: chip-select line(s) %#x asserted, software selected %#x (cs_mode=%d)" % (k, rows[k][6], sel, p["cs_mode"]), k)
             break
     if p["cs_mode"] and n > 8 and not viols:
         checks += 1
-        if any(rows[k][1] for k in range(4, n)):
+        if any(rows[k][1] for k in range(8 if with_csr else 4, n)):
             V("cs_framing", "cs_n", "manual chip-select mode: a selected line (%#x) is not asserted" % sel)
     # idle between transfers: no clock edges outside accepted windows
     busy = set()
